@@ -25,6 +25,8 @@ const (
 
 type Loc struct {
 	Kind  int
+	Path  []int      // for local struct cells: field path into the value
+	Root  types.Type // type of the whole cell (when Path is used)
 	Cell  cellKey
 	Heap  string
 	HSort Sort
@@ -57,6 +59,7 @@ type loopInfo struct {
 	hasDec  bool
 	body    map[*ssa.BasicBlock]bool
 	auto    func(st *State) Term
+	precise map[string][]Term // heaps written in the loop only at these known local objects
 }
 
 func (vc *VC) newFrame(fn *ssa.Function, parent *Frame) *Frame {
@@ -127,7 +130,7 @@ func (f *Frame) scalarLocal(a *ssa.Alloc) bool {
 		return false
 	}
 	elem := a.Type().Underlying().(*types.Pointer).Elem()
-	return !isStruct(elem) && !isArray(elem)
+	return !isArray(elem)
 }
 
 // locOf returns the location designated by pointer value v with pointee type t
@@ -142,9 +145,18 @@ func (f *Frame) locOf(v Value, t types.Type) Loc {
 
 func (f *Frame) readLoc(st *State, l Loc) Term {
 	if l.Kind == locLocal {
+		root := l.Typ
+		if l.Root != nil {
+			root = l.Root
+		}
 		t, ok := st.locals[l.Cell]
 		if !ok {
-			t = f.vc.env.Zero(l.Typ)
+			t = f.vc.env.Zero(root)
+		}
+		cur := root
+		for _, i := range l.Path {
+			t = f.vc.env.structGet(cur, t, i)
+			cur = cur.Underlying().(*types.Struct).Field(i).Type()
 		}
 		return t
 	}
@@ -153,16 +165,45 @@ func (f *Frame) readLoc(st *State, l Loc) Term {
 
 func (f *Frame) writeLoc(st *State, l Loc, v Term, instr ssa.Instruction) {
 	if l.Kind == locLocal {
-		st.locals[l.Cell] = v
+		if len(l.Path) == 0 {
+			st.locals[l.Cell] = v
+			return
+		}
+		whole, ok := st.locals[l.Cell]
+		if !ok {
+			whole = f.vc.env.Zero(l.Root)
+		}
+		st.locals[l.Cell] = f.structUpdate(l.Root, whole, l.Path, v)
 		return
 	}
 	f.vc.checkFrame(st, l.Heap, l.HSort, l.Idx, instr)
 	st.SetHeap(l.Heap, Store(st.Heap(f.vc, l.Heap, l.HSort), l.Idx, v))
 }
 
+// structUpdate returns whole with the field at path replaced by v.
+func (f *Frame) structUpdate(t types.Type, whole Term, path []int, v Term) Term {
+	if len(path) == 0 {
+		return v
+	}
+	env := f.vc.env
+	st := t.Underlying().(*types.Struct)
+	var fs []Term
+	for i := 0; i < st.NumFields(); i++ {
+		cur := env.structGet(t, whole, i)
+		if i == path[0] {
+			cur = f.structUpdate(st.Field(i).Type(), cur, path[1:], v)
+		}
+		fs = append(fs, cur)
+	}
+	return env.structMk(t, fs)
+}
+
 // load reads a value of type t through pointer v.
 func (f *Frame) load(st *State, v Value, t types.Type) Term {
 	env := f.vc.env
+	if v.Loc != nil && v.Loc.Kind == locLocal {
+		return f.readLoc(st, *v.Loc)
+	}
 	if s, ok := t.Underlying().(*types.Struct); ok {
 		var fs []Term
 		for i := 0; i < s.NumFields(); i++ {
@@ -179,6 +220,10 @@ func (f *Frame) load(st *State, v Value, t types.Type) Term {
 
 func (f *Frame) store(st *State, v Value, t types.Type, val Term, instr ssa.Instruction) {
 	env := f.vc.env
+	if v.Loc != nil && v.Loc.Kind == locLocal {
+		f.writeLoc(st, *v.Loc, val, instr)
+		return
+	}
 	if s, ok := t.Underlying().(*types.Struct); ok {
 		for i := 0; i < s.NumFields(); i++ {
 			f.store(st, f.fieldAddr(v, t, i), s.Field(i).Type(), env.structGet(t, val, i), instr)
@@ -197,6 +242,15 @@ func (f *Frame) fieldAddr(v Value, owner types.Type, i int) Value {
 	env := f.vc.env
 	st := owner.Underlying().(*types.Struct)
 	ft := st.Field(i).Type()
+	if v.Loc != nil && v.Loc.Kind == locLocal {
+		// field of a struct-typed local variable held by value
+		root := v.Loc.Root
+		if root == nil {
+			root = v.Loc.Typ
+		}
+		path := append(append([]int{}, v.Loc.Path...), i)
+		return Value{T: IntLit(-1), Loc: &Loc{Kind: locLocal, Cell: v.Loc.Cell, Path: path, Root: root, Typ: ft}}
+	}
 	if isStruct(ft) {
 		return Value{T: env.subRef(owner, i, v.T)}
 	}
@@ -254,6 +308,10 @@ func (f *Frame) markAlive(st *State, ref Term, t types.Type) {
 // zeroInit writes the zero value of t at reference/pointer v.
 func (f *Frame) zeroInit(st *State, v Value, t types.Type) {
 	env := f.vc.env
+	if v.Loc != nil && v.Loc.Kind == locLocal && isStruct(t) {
+		f.writeLoc(st, *v.Loc, env.Zero(t), nil)
+		return
+	}
 	switch u := t.Underlying().(type) {
 	case *types.Struct:
 		for i := 0; i < u.NumFields(); i++ {
@@ -281,6 +339,10 @@ func (f *Frame) zeroInit(st *State, v Value, t types.Type) {
 		}
 	default:
 		l := f.locOf(v, t)
+		if l.Kind == locLocal && len(l.Path) > 0 {
+			f.writeLoc(st, l, env.Zero(t), nil)
+			return
+		}
 		// fresh object: no frame check needed
 		if l.Kind == locLocal {
 			st.locals[l.Cell] = env.Zero(t)
